@@ -157,26 +157,35 @@ Proof. exact json_stream_panic_old_refuted_lemma. Qed.
 
 (* ---- csv delimiters and the jumpTo loop (csv/format.go, csv/reader.go, flatfile/csv/format.go) - *)
 (* Every delimiter string the csv (fmt 0) or csv2 schema validation accepts -- JSON-schema length
-   bounds and isValidDelimiter as extracted into Gen/Safety.v -- is usable by encoding/csv, and
-   then jumpTo ends within (remaining lines + 1) iterations for every row index, every reader
-   state and every record layout [span] consuming >= 1 line per Read. *)
+   bounds and isValidDelimiter as extracted into Gen/Safety.v -- is usable by encoding/csv. *)
 Theorem csv_delim_progress :
   forall (d : bytes) (fmt : N), csv_accepts_delimiter fmt d = true ->
-  stdcsv_delim_usable (fst (decode_rune d)) = true /\
-  forall span, (forall s, 0 < lines_left s -> 1 <= span s <= lines_left s) ->
-  forall row s, jump_to span (lines_left s + 1) (stdcsv_delim_usable (fst (decode_rune d))) row s <> JumpOutOfFuel.
+  stdcsv_delim_usable (fst (decode_rune d)) = true.
 Proof. exact csv_delim_progress_lemma. Qed.
 
+(* jumpTo after fix 35247f5 ends within (remaining lines + 1) iterations for every row index, every
+   reader state, every record layout [span] consuming >= 1 line per Read, every delimiter (usable
+   or not) and every failure pattern of the input reader. *)
+Theorem csv_jump_terminates :
+  forall span io_fails, (forall s, 0 < lines_left s -> 1 <= span s <= lines_left s) ->
+  forall usable row s, jump_to span io_fails (lines_left s + 1) usable row s <> JumpOutOfFuel.
+Proof. exact csv_jump_terminates_lemma. Qed.
+
+(* The pre-fix loop: an unusable delimiter spins for every fuel (F15); a persistently failing input
+   needs as many iterations as the schema's row index (N10). *)
 Example csv_delim_hang_old_refuted :
-  exists r : N, stdcsv_delim_usable r = false /\
-    forall span fuel, jump_to span fuel (stdcsv_delim_usable r) 1 (mkCsv 0 3) = JumpOutOfFuel.
+  (exists r : N, stdcsv_delim_usable r = false /\
+    forall span io_fails fuel, jump_to_old span io_fails fuel (stdcsv_delim_usable r) 1 (mkCsv 0 3) = JumpOutOfFuel)
+  /\ (forall span fuel row, fuel <= row -> jump_to_old span (fun _ => true) fuel true row (mkCsv 0 3) = JumpOutOfFuel)
+  /\ jump_to (fun _ => 1) (fun _ => true) 4 true 4000 (mkCsv 0 3) = JumpFailed
+  /\ jump_to (fun _ => 1) (fun _ => false) 4 false 2 (mkCsv 0 3) = JumpFailed.
 Proof. exact csv_delim_hang_old_refuted_lemma. Qed.
 
 Example csv_delim_nonvacuous :
   csv_accepts_delimiter 0 [x2c]%byte = true /\ csv_accepts_delimiter 1 [xe6; x97; xa5]%byte = true
   /\ csv_accepts_delimiter 0 [x22]%byte = false /\ csv_accepts_delimiter 1 [xef; xbf; xbd]%byte = false
   /\ csv_accepts_delimiter 0 [x7c; x7c]%byte = false /\ csv_accepts_delimiter 0 [] = false
-  /\ jump_to (fun _ => 2) 6 true 4 (mkCsv 0 5) = JumpDone (mkCsv 4 1).
+  /\ jump_to (fun _ => 2) (fun _ => false) 6 true 4 (mkCsv 0 5) = JumpDone (mkCsv 4 1).
 Proof. vm_compute. repeat split; reflexivity. Qed.
 
 (* ---- removeLastFilterInXPath / removeTrailingFiltersInXPath (idr/util.go) --------------------- *)
